@@ -1,23 +1,34 @@
 /-
   TrVerif.Model.Block — runs the request lines of one dataset block through the server model
   (one `Server` per block, like one `TransitData` per block in the harness).
+
+  `update <kinds…> [swap]`: the harness keeps a second trip set ("the files now on disk");
+  `swap` exchanges it with the set the fetcher serves, then each named kind is re-read by the
+  corresponding `TransitData::update*` call (model: `applyUpdate`, `Model/Refresh.lean`).
 -/
-import TrVerif.Model.Server
+import TrVerif.Model.Refresh
 namespace Tr
 
+/-- harness word (`schedules`, `scenarios`, …) -> update call, through the generated handler table -/
+def updateFnOf (w : String) : Option String := Gen.updateCacheNames.lookup w
+
 def runBlock (st : DState) : List String :=
-  let rec go : List String → Nat → Dataset → List TripRec → Server → List String → List String
+  let rec go : List String → Nat → Live → List TripRec → List TripRec → List String → List String
     | [], _, _, _, _, out => out
-    | r :: rs, i, ds, t2, srv, out =>
+    | r :: rs, i, l, onDisk, other, out =>
       match words r with
       | "update" :: ws =>
-        -- in-memory refresh: `swap` exchanges the two trip sets, every named kind is re-read
-        let (ds', t2') := if ws.contains "swap" then ({ ds with trips := t2 }, ds.trips) else (ds, t2)
-        go rs (i+1) ds' t2' srv (out ++ [s!"A {st.id} {i} updated"])
+        -- words in order, like the harness: `swap` exchanges the trip sets, a kind is re-read from what is on disk then
+        let (l', onDisk', other') := ws.foldl (fun (acc : Live × List TripRec × List TripRec) w =>
+            if w = "swap" then (acc.1, acc.2.2, acc.2.1)
+            else match updateFnOf w with
+              | some fn => (applyUpdate { st.ds with trips := acc.2.1 } fn acc.1, acc.2.1, acc.2.2)
+              | none => acc) (l, onDisk, other)
+        go rs (i+1) l' onDisk' other' (out ++ [s!"A {st.id} {i} updated"])
       | kind :: kvs =>
-        let (srv', resp) := handle ds srv { kind, kvs }
-        go rs (i+1) ds t2 srv' (out ++ [s!"A {st.id} {i} {resp}"])
-      | [] => go rs i ds t2 srv out
-  go st.reqs 0 st.ds st.trips2 (Server.init st.cacheAll) []
+        let (srv', resp) := handle l.ds l.srv { kind, kvs }
+        go rs (i+1) { l with srv := srv' } onDisk other (out ++ [s!"A {st.id} {i} {resp}"])
+      | [] => go rs i l onDisk other out
+  go st.reqs 0 (Live.start st.ds st.cacheAll) st.ds.trips st.trips2 []
 
 end Tr
